@@ -671,7 +671,7 @@ pub fn run(run: &mut Run) -> Result<(), String> {
                 plan.raws.push((Box::new(ThreeMen { bk: Some(sub8.clone()) }), b(0, 0)));
                 plan.raws.push((Box::new(Castle { extra: if prop == "C16" { 0 } else { 1 } }), b(0, 0)));
                 plan.raws.push((Box::new(Checks { n: 2 }), b(0, 0)));
-                plan.raws.push((Box::new(EpUniverse::reduced()), b(0, 0)));
+                plan.raws.push((Box::new(EpUniverse::small()), b(0, 0)));
             } else {
                 plan.start = Some(b(3, 1));
                 plan.mid = Some(b(2, 1));
@@ -689,9 +689,9 @@ pub fn run(run: &mut Run) -> Result<(), String> {
             if q {
                 plan.start = Some(b(2, 1));
                 plan.mid = Some(b(1, 1));
-                plan.raws.push((Box::new(ThreeMen { bk: Some(vec![63, 36]) }), b(0, 0)));
-                plan.raws.push((Box::new(Castle { extra: 1 }), b(0, 0)));
-                plan.raws.push((Box::new(EpUniverse::reduced()), b(0, 0)));
+                plan.raws.push((Box::new(ThreeMen { bk: Some(vec![63]) }), b(0, 0)));
+                plan.raws.push((Box::new(Castle { extra: 0 }), b(0, 0)));
+                plan.raws.push((Box::new(Checks { n: 1 }), b(0, 0)));
             } else {
                 plan.start = Some(b(3, 1));
                 plan.mid = Some(b(2, 1));
@@ -711,13 +711,11 @@ pub fn run(run: &mut Run) -> Result<(), String> {
             if q {
                 plan.start = Some(b(1, 1));
                 plan.mid = Some(b(0, 0));
-                plan.raws.push((Box::new(Castle { extra: 0 }), b(0, 0)));
             } else {
                 plan.start = Some(b(2, 1));
                 plan.mid = Some(b(1, 1));
                 plan.clock = Some(b(0, 0));
                 plan.raws.push((Box::new(Castle { extra: 0 }), b(0, 0)));
-                plan.raws.push((Box::new(ThreeMen { bk: Some(vec![63]) }), b(0, 0)));
             }
         }
         _ => unreachable!(),
